@@ -232,7 +232,7 @@ func TestC06_HistoryInvalidKey(t *testing.T) {
 // TestC06_History: rapid-drawn operation lists on valid and invalid key objects.
 func TestC06_History(t *testing.T) {
 	inv := invalidScalars()
-	h.Prop(t, h.P{Name: "history", Quick: 500, Thorough: 10000}, func(rt *rapid.T) histCase {
+	h.Prop(t, h.P{Name: "history", Quick: 500, Thorough: 6000}, func(rt *rapid.T) histCase {
 		c := histCase{}
 		if rapid.IntRange(0, 3).Draw(rt, "invalid") == 0 {
 			if rapid.Bool().Draw(rt, "listed") {
